@@ -152,6 +152,19 @@ def write_cfg(name, text):
 
 def tlc_mc(module, cfg_text, tag, workers=4, timeout=900, simulate=None, seed=None,
            expect_violation=False, on_case=None, heap="6g", coverage=False):
+    """Run TLC; a spurious StackOverflowError of multi-worker TLC (seen with lazily evaluated
+    values shared between workers) is retried once with a single worker."""
+    try:
+        return _tlc_mc(module, cfg_text, tag, workers, timeout, simulate, seed, expect_violation, on_case, heap, coverage)
+    except ToolError as e:
+        if "StackOverflowError" in str(e) and workers > 1 and on_case is None:
+            log(f"[tlc] {module}/{tag}: StackOverflowError with {workers} workers, retrying with 1")
+            return _tlc_mc(module, cfg_text, tag, 1, timeout * 3, simulate, seed, expect_violation, on_case, heap, coverage)
+        raise
+
+
+def _tlc_mc(module, cfg_text, tag, workers=4, timeout=900, simulate=None, seed=None,
+            expect_violation=False, on_case=None, heap="6g", coverage=False):
     """Run TLC on spec/mc/<module>.tla with a generated cfg.  Collects CASE lines."""
     cfg = write_cfg(f"{tag}.cfg", cfg_text)
     meta = os.path.join(OUT, "tlc", tag)
